@@ -61,6 +61,12 @@ def canon(c):
     g = c.graph
     # the shared constant nodes are recognised by their type, whatever they are called
     ren = {n: f"<const{g.nodes[n].get('type')}>" for n in g.nodes if g.nodes[n].get("type") in ("0", "1")}
+    # ... and so is the helper buffer of a REPEATED constant operand of a parity gate: both parsers call it
+    # buf_<name of the constant node>, a name derived from the one name the property exempts
+    for k in list(ren):
+        for x in g.succ[k]:
+            if x.startswith("buf_" + k) and g.nodes[x].get("type") == "buf" and set(g.pred[x]) == {k}:
+                ren[x] = "buf_" + ren[k] + x[len("buf_" + k):]
     r = lambda n: ren.get(n, n)
     nodes = sorted((r(n), g.nodes[n].get("type"), bool(g.nodes[n].get("output", False))) for n in g.nodes)
     edges = sorted((r(u), r(v)) for u, v in g.edges)
@@ -263,6 +269,8 @@ def perm_family():
         # repeated operands: parity counts them, and/or do not
         [["input", ["a", "b"]], ["output", ["y", "z"]], ["gate", "xor", [["U0", ["y", "a", "a"]]]], ["gate", "xnor", [["U1", ["z", "a", "b", "a"]]]]],
         [["input", ["a", "b"]], ["output", ["y", "z"]], ["gate", "and", [["U0", ["y", "a", "a"]]]], ["gate", "xor", [["U1", ["z", "b", "b", "b"]]]]],
+        # ... and the repeated operand is a constant literal
+        [["input", ["a", "b"]], ["output", ["y", "z"]], ["gate", "xor", [["U0", ["y", "a", "1'b1", "1'b1"]]]], ["gate", "xnor", [["U1", ["z", "1'b0", "b", "1'b0"]]]]],
     ]
     for items in fam:
         ports = []
